@@ -337,8 +337,9 @@ def _bitlen(n):
 
 
 class Gen:
-    def __init__(self, w, policy, cell_factory=None, sch=None):
+    def __init__(self, w, policy, cell_factory=None, sch=None, prefix=''):
         self.w, self.pol, self.sch = w, policy, sch or schema()
+        self.prefix = prefix            # prefix of the symbol names (a second, independent value of the same shape)
         self.cell_factory = cell_factory
         self.assumptions = []
         self.ncell = 0
@@ -355,17 +356,17 @@ class Gen:
         if pin is not None:
             v = pin
         else:
-            v = self.w.int('v:' + path, 0, (1 << nbits) - 1 if hi is None else hi)
+            v = self.w.int(self.prefix + 'v:' + path, 0, (1 << nbits) - 1 if hi is None else hi)
         cur.bits = cur.bits + E.uint(v, nbits)
         return v
 
     def _int(self, path, nbits, cur):
-        v = self.w.int('v:' + path, -(1 << (nbits - 1)), (1 << (nbits - 1)) - 1)
+        v = self.w.int(self.prefix + 'v:' + path, -(1 << (nbits - 1)), (1 << (nbits - 1)) - 1)
         cur.bits = cur.bits + E.int_(v, nbits)
         return v
 
     def _bits(self, path, nbits, cur):
-        s = self.w.bits('b:' + path, nbits)
+        s = self.w.bits(self.prefix + 'b:' + path, nbits)
         cur.bits = cur.bits + s
         return Bits_(s)
 
@@ -470,7 +471,7 @@ class Gen:
             # inline remainder: an arbitrary bit string and references up to the end of the cell (symbolic)
             shapes = [(0, 0), (77, 1), (1, 0), (0, 1)]
             n, nk = shapes[self._choose(path + '*', 'any:bits,refs=' + '/'.join(f'{a},{b}' for a, b in shapes), len(shapes), depth)]
-            s = w.bits('any:' + path, n)
+            s = w.bits(self.prefix + 'any:' + path, n)
             cur.bits = cur.bits + s
             kids = [self._cell(path + f'.anyref{i}') for i in range(nk)]
             cur.refs.extend(Raw(c) for c in kids)
@@ -730,21 +731,21 @@ class Gen:
             return Addr_('none')
         if kind in ('extern', 'extern0'):
             ln = 0 if kind == 'extern0' else 73
-            val = w.int('v:' + path + '.ext', 0, (1 << ln) - 1) if ln else 0
+            val = w.int(self.prefix + 'v:' + path + '.ext', 0, (1 << ln) - 1) if ln else 0
             cur.bits = cur.bits + E.addr_extern(ln, val)
             return Addr_('extern', len=ln, value=val)
         any_ = None
         if kind == 'std+anycast' or (kind == 'var' and self.pol.prof):
             d = 5
-            any_ = (d, w.int('v:' + path + '.pfx', 0, (1 << d) - 1))
+            any_ = (d, w.int(self.prefix + 'v:' + path + '.pfx', 0, (1 << d) - 1))
         if kind.startswith('std'):
-            wc = w.int('v:' + path + '.wc', -128, 127)
-            h = w.bits('b:' + path + '.hash', 256)
+            wc = w.int(self.prefix + 'v:' + path + '.wc', -128, 127)
+            h = w.bits(self.prefix + 'b:' + path + '.hash', 256)
             cur.bits = cur.bits + E.addr_std(wc, h, any_)
             return Addr_('std', wc=wc, hash=h, anycast=any_)
-        wc = w.int('v:' + path + '.wc', -(1 << 31), (1 << 31) - 1)
+        wc = w.int(self.prefix + 'v:' + path + '.wc', -(1 << 31), (1 << 31) - 1)
         ln = 100
-        b = w.bits('b:' + path + '.addr', ln)
+        b = w.bits(self.prefix + 'b:' + path + '.addr', ln)
         s = E.lit('11') + (E.lit('0') if any_ is None else E.lit('1') + E.uint(any_[0], 5) + E.uint(any_[1], any_[0]))
         cur.bits = cur.bits + s + E.uint(ln, 9) + E.int_(wc, 32) + b
         return Addr_('var', wc=wc, len=ln, bits=b, anycast=any_)
@@ -812,9 +813,9 @@ class Gen:
         d.entries.append((label if full_key is None else full_key, v, extra))
 
 
-def generate(w, typename, args=(), policy=None, path='', cell_factory=None):
+def generate(w, typename, args=(), policy=None, path='', cell_factory=None, prefix=''):
     """(Node, value) for a value of the schema type `typename args` under the policy"""
-    g = Gen(w, policy or Policy(), cell_factory)
+    g = Gen(w, policy or Policy(), cell_factory, prefix=prefix)
     cur = CellBuf()
     t = ('app', typename, [('nat', a) if type(a) is int else a for a in args]) if args else ('id', typename)
     v = g.type(t, {}, path or typename, cur, 0)
